@@ -48,7 +48,8 @@ RULES = {
               "container, weights present and divided by their own sum",
     "C19-W2": "every definition of the draw weights that can reach choice(...) is computed in the same call from "
               "edge_length(mesh) / face_area(mesh); weights are never read back from a stored attribute, "
-              "which would be stale after the vertices moved",
+              "which would be stale after the vertices moved; the weights are a homogeneous function of the measure: it is never clamped, "
+              "compared or shifted with a non-zero absolute constant (the distribution over the elements does not depend on the unit of length)",
     "C19-E1": "AABB.is_empty is the per-axis predicate `some axis has mini >= maxi` (decided by evaluating its expression on every "
               "box with coordinates in {0,1,2}, dimensions 1-3), and sample_AABB raises on an empty box at the top level, before "
               "any mode branch or draw (a test written on the corners themselves is evaluated on the same boxes: every empty one must raise)",
@@ -57,7 +58,8 @@ RULES = {
               "precedes every rebinding of t; de_casteljau never stores through (an alias of) its argument, never updates an entry "
               "of a shallow copy in place, and a blend stored in place goes to a float array",
     "C19-P1": "sample_AABB, grid mode: the per-axis resolution handed to linspace is the *rounded* dim-th root of n_pts (the number of "
-              "points is the nearest perfect power), not its truncation or ceiling",
+              "points is the nearest perfect power), not its truncation or ceiling, wherever it is used (linspace count, index grid, divisor); "
+              "no divisor of the grid coordinates vanishes when the resolution is 1 (one node per axis: n_pts = 1, 2 in 2D ...)",
     "C19-S1": "BezierCurve.as_polyline (custom_pos=None, small n_pts): n_pts vertices chained by the edges (i,i+1), the `t` attribute of "
               "vertex k is the parameter it was evaluated at, the parameter linspace is consumed entirely; "
               "BezierPatch.as_surface (evaluated for small unequal resolutions): all indices in [0,|V|), the faces form a consistently "
@@ -1179,7 +1181,36 @@ def w_weights(ctx):
                     _w2_provenance(ctx, name, fn, s, leaf, mesh_p, measure, what_)
 
 
+def _absolute_threshold(expr, measure):
+    """a sub-expression that compares / clamps / shifts the measure (a length or an area: it scales with the mesh) with a non-zero
+    absolute constant: np.maximum(areas, 1e-8), areas + 1e-12, np.clip(areas, 1e-9, None), np.where(areas < 1e-8, ...).  Returns the node."""
+    has_measure = lambda e: any(isinstance(c, ast.Call) and au.call_tail(c) == measure for c in ast.walk(e))
+    nonzero = lambda e: (lambda v: v is not None and v != 0)(order.fold_const(e)) if e is not None else False
+    for n in ast.walk(expr):
+        if isinstance(n, ast.Call) and au.call_tail(n) in ("maximum", "minimum", "fmax", "fmin", "max", "min", "clip") :
+            ops = list(n.args) + [k.value for k in n.keywords if k.arg in ("a_min", "a_max", "min", "max")]
+            if isinstance(n.func, ast.Attribute) and not F._is_mod(n.func.value):
+                ops.append(n.func.value)
+            if any(has_measure(o) for o in ops) and any(nonzero(o) for o in ops if not has_measure(o)):
+                return n
+        if isinstance(n, ast.BinOp) and isinstance(n.op, (ast.Add, ast.Sub)):
+            a, b = n.left, n.right
+            if (has_measure(a) and not has_measure(b) and nonzero(b)) or (has_measure(b) and not has_measure(a) and nonzero(a)):
+                return n
+        if isinstance(n, ast.Compare) and len(n.ops) == 1 and isinstance(n.ops[0], (ast.Lt, ast.LtE, ast.Gt, ast.GtE)):
+            a, b = n.left, n.comparators[0]
+            if (has_measure(a) and not has_measure(b) and nonzero(b)) or (has_measure(b) and not has_measure(a) and nonzero(a)):
+                return n
+    return None
+
+
 def _w2_provenance(ctx, name, fn, s, expr, mesh_p, measure, what_):
+    thr = _absolute_threshold(expr, measure)
+    if thr is not None:
+        ctx.fail("C19-W2", s, f"{name}: the draw weights are not a homogeneous function of the {what_}s of the elements",
+                 f"`{au.src(thr)[:120]}` combines {measure}({mesh_p}) with an absolute constant: the {what_}s scale with the mesh, the constant does not - "
+                 f"for a mesh given in small units the elements below the constant all get the same weight and the share of samples per "
+                 f"element no longer follows its {what_} (the distribution must not depend on the unit of length)")
     for conds, leaf in F.alternatives(expr):
         # conditional expressions nested deeper (a branch that reads a stored attribute) are alternatives as well
         inner_alts = [x for n in ast.walk(leaf) if isinstance(n, ast.IfExp) for x in (n.body, n.orelse)] or [leaf]
@@ -1237,54 +1268,92 @@ def _root_chains(e, chain=()):
     return out
 
 
+def _rounding_kinds(chain):
+    kinds = []
+    for k, w in enumerate(chain):
+        if isinstance(w, ast.Call):
+            t = au.call_tail(w)
+            if t in ("round", "rint", "around", "round_"):
+                kinds.append("round")
+            elif t in ("int", "floor", "trunc", "fix") or (t == "astype" and w.args and au.src(w.args[0]) in ("int", "np.int64", "np.int32")):
+                inner = chain[k + 1] if k + 1 < len(chain) else None
+                half = isinstance(inner, ast.BinOp) and isinstance(inner.op, ast.Add) and any(au.const(x) == 0.5 for x in (inner.left, inner.right))
+                kinds.append("round" if half else "trunc")
+            elif t == "ceil":
+                kinds.append("ceil")
+        elif isinstance(w, ast.BinOp) and isinstance(w.op, ast.FloorDiv):
+            kinds.append("trunc")
+    return kinds
+
+
+def _resolution_node(chain):
+    """the integer resolution inside a chain of wrappers around the root of n_pts: the outermost rounding / truncating wrapper"""
+    for w in chain:
+        if isinstance(w, ast.Call) and au.call_tail(w) in ("round", "rint", "around", "round_", "int", "floor", "trunc", "fix", "ceil", "astype"):
+            return w
+        if isinstance(w, ast.BinOp) and isinstance(w.op, ast.FloorDiv):
+            return w
+    return None
+
+
 def p1_grid_resolution(ctx):
+    """the per-axis resolution of the grid is the rounded root of n_pts wherever it is used (linspace count, index grid, divisor), and
+    the grid coordinates are defined when that resolution is 1 (a single node per axis: n_pts = 1, 2 in 2D ...)"""
     fn = ctx.repo.func(SAMP, "sample_AABB")
     site = ctx.site(SAMP, fn)
     fl = flow_of(ctx, SAMP, fn)
     found = 0
-    sources = [(c, c) for c in au.calls(fn) if au.call_tail(c) == "linspace"]
-    if not sources:
-        # the grid built by a helper: read from the returned value, in the caller's terms
-        seen_ = set()
-        for st in au.stmts(fn.body):
-            if isinstance(st, ast.Return) and st.value is not None:
-                for c in ast.walk(fl.resolve(st.value, at=st, keep=("n_pts",))):
-                    if isinstance(c, ast.Call) and au.call_tail(c) == "linspace" and au.norm(c) not in seen_:
-                        seen_.add(au.norm(c))
-                        sources.append((c, st))
-    for c, at_ in sources:
-        num = c.args[2] if len(c.args) >= 3 else next((k.value for k in c.keywords if k.arg == "num"), None)
-        if num is None:
-            continue
-        r = fl.resolve(num, at=at_, keep=("n_pts",))
+    seen_ = set()
+    rets = [st for st in au.stmts(fn.body) if isinstance(st, ast.Return) and st.value is not None]
+    resolved = [(st, as_operators(fl.resolve(st.value, at=st, keep=("n_pts",)))) for st in rets]
+    # where to report: the statement of the function that mentions the root, else the return
+    root_stmts = [st for st in au.stmts(fn.body) if not isinstance(st, ast.Return) and any(_is_root(n, None) for n in ast.walk(st))]
+    for st, r in resolved:
         for chain in _root_chains(r):
+            res = _resolution_node(chain)
+            key = au.norm(res if res is not None else chain[-1] if chain else r)
+            if key in seen_:
+                continue
+            seen_.add(key)
             found += 1
-            s = ctx.site(SAMP, fn, at_)
-            kinds = []
-            for k, w in enumerate(chain):
-                if isinstance(w, ast.Call):
-                    t = au.call_tail(w)
-                    if t in ("round", "rint", "around", "round_"):
-                        kinds.append("round")
-                    elif t in ("int", "floor", "trunc", "fix") or (t == "astype" and w.args and au.src(w.args[0]) in ("int", "np.int64", "np.int32")):
-                        inner = chain[k + 1] if k + 1 < len(chain) else None
-                        half = isinstance(inner, ast.BinOp) and isinstance(inner.op, ast.Add) and any(au.const(x) == 0.5 for x in (inner.left, inner.right))
-                        kinds.append("round" if half else "trunc")
-                    elif t == "ceil":
-                        kinds.append("ceil")
-                elif isinstance(w, ast.BinOp) and isinstance(w.op, ast.FloorDiv):
-                    kinds.append("trunc")
+            s = ctx.site(SAMP, fn, root_stmts[0] if root_stmts else st)
+            kinds = _rounding_kinds(chain)
+            shown = au.src(res)[:120] if res is not None else au.src(chain[-1] if chain else r)[:120]
             if "round" in kinds:
                 ctx.ok("C19-P1", s, "sample_AABB: grid resolution is the rounded root of n_pts")
             elif "trunc" in kinds or "ceil" in kinds:
                 how = "truncated" if "trunc" in kinds else "rounded up"
                 ctx.fail("C19-P1", s, f"sample_AABB: the grid resolution is the {how} root of n_pts, not the rounded one",
-                         f"`{au.src(r)[:120]}`: for n_pts just below a perfect power r^d (e.g. 63 in 3D) the grid has "
+                         f"`{shown}`: for n_pts just below a perfect power r^d (e.g. 63 in 3D) the grid has "
                          f"{'(r-1)^d' if 'trunc' in kinds else 'more than r^d'} points instead of the nearest perfect power")
             else:
-                ctx.undecided("C19-P1", s, "sample_AABB: how the grid resolution is made an integer is not recognised", f"`{au.src(r)[:120]}`")
+                ctx.undecided("C19-P1", s, "sample_AABB: how the grid resolution is made an integer is not recognised", f"`{shown}`")
+            if res is None:
+                continue
+            # ---- a single node per axis: every divisor built from the resolution must be non-zero at resolution 1
+            rkey = au.norm(res)
+            for conds, leaf in F.expand(r):
+                if any(rkey in au.norm(c_) or "n_pts" in au.names(c_) for c_, _pol in conds):
+                    continue        # the small resolutions are treated apart
+                for n in ast.walk(leaf):
+                    if not (isinstance(n, ast.BinOp) and isinstance(n.op, (ast.Div, ast.FloorDiv, ast.Mod))):
+                        continue
+                    try:
+                        den = sym.to_poly(n.right, lambda x: "R" if au.norm(x) == rkey else None)
+                    except Exception:
+                        continue
+                    if den.atoms() != {"R"} or den.eval({"R": 1}) != 0:
+                        continue
+                    ctx.fail("C19-P1", s, "sample_AABB: the grid coordinates are divided by a quantity that vanishes when the grid has one node per axis",
+                             f"`{au.src(n)[:120]}` divides by `{den}` with R = `{au.src(res)[:60]}`: for n_pts = 1 (and every n_pts whose rounded root is 1: "
+                             f"2 in 2D, up to 3 in 3D ...) R is 1 and the single sample is 0/0 = nan, not a point of the box "
+                             f"(np.linspace(0, 1, 1) gives the corner 0)")
+                    break
+                else:
+                    continue
+                break
     if not found:
-        ctx.undecided("C19-P1", site, "sample_AABB: grid resolution (linspace over the root of n_pts) not found", "")
+        ctx.undecided("C19-P1", site, "sample_AABB: grid resolution (a rounded root of n_pts) not found", "")
 
 
 # ----------------------------------------------------------------------- C19-G1
